@@ -33,6 +33,7 @@ struct Cfg {
     bool long_strings = false;
     bool neg_explicit = true;     // negative ExplicitX/Y coordinates
     bool force_ongrid = false;    // integer grid coordinates only
+    bool compact = false;         // small files only: no many-cell libraries, no large lattice counts (exhaustive sweeps)
 };
 
 struct Ctx {
@@ -268,11 +269,20 @@ inline model::MVal any_val(Rng& r) {
         case 0:
             v.kind = 0;
             v.u = r.chance(0.2) ? r.next() : r.below(1000);
+            if (r.chance(0.05)) {
+                static const uint64_t edge[] = {127, 128, 16383, 16384, 0x7fffffffffffffffULL, 0x8000000000000000ULL, 0xffffffffffffffffULL};
+                v.u = edge[r.below(7)];
+            }
             break;
         case 1:
             v.kind = 1;
             v.i = r.chance(0.2) ? (int64_t)(r.next() >> 1) * (r.chance(0.5) ? -1 : 1)
                                 : r.range(-1000, 1000);
+            if (r.chance(0.05)) {
+                // (the most negative value itself is known finding F26 and kept out: it would hide behind that finding)
+                static const int64_t edge[] = {63, 64, -63, -64, 8191, 8192, -8192, INT64_MAX, INT64_MIN + 1};
+                v.i = edge[r.below(9)];
+            }
             break;
         case 2: {
             v.kind = 2;
@@ -280,6 +290,21 @@ inline model::MVal any_val(Rng& r) {
                                         -7.0, 1e9,   0.1,  3.1416, -1234.5, 1.0 / 3.0, 6.25e-2,
                                         12345678.0,  1e-9, 299792.458};
             v.r = rs[r.below(sizeof(rs) / sizeof(rs[0]))];
+            if (r.chance(0.15)) {
+                // values next to the ones that have a compact encoding (integers, reciprocals), and the ends of the range
+                static const double base[] = {0.2, 1.0 / 3.0, 0.1, 0.5, 7.0, 1e15, 0.01, 1.0 / 7.0};
+                double b = base[r.below(8)];
+                switch (r.below(5)) {
+                    case 0: v.r = nextafter(b, 0.0); break;
+                    case 1: v.r = nextafter(b, 10.0 * b); break;
+                    case 2: v.r = -nextafter(b, 0.0); break;
+                    case 3: {
+                        static const double ends[] = {1e19, -1e19, 18446744073709551616.0, 9223372036854775808.0, 1.7976931348623157e308, 4.9406564584124654e-324, -2.2250738585072014e-308, 1e-300};
+                        v.r = ends[r.below(8)];
+                    } break;
+                    default: v.r = -b;
+                }
+            }
         } break;
         case 3:
             v.kind = 3;
@@ -373,7 +398,7 @@ inline model::MRep repetition(Ctx& c, bool for_ref) {
             }
             break;
     }
-    if ((rep.type == model::REP_RECT || rep.type == model::REP_REGULAR) && r.chance(0.02)) {
+    if ((rep.type == model::REP_RECT || rep.type == model::REP_REGULAR) && r.chance(0.02) && !c.cfg.compact) {
         // counts at the limits of one- and two-byte fields (GDSII COLROW is a signed 16-bit pair)
         static const uint64_t big[] = {127, 128, 255, 256, 1000, 32767, 32768, 40000, 65535};
         uint64_t n = big[r.below(for_ref ? 9 : 4)];
@@ -486,6 +511,25 @@ inline model::MPoly polygon(Ctx& c, bool allow_big) {
         } break;
         default: {
             int n = (int)r.range(3, std::max(3, c.cfg.max_vertices));
+            if (!c.cfg.simple_polys_only && c.cfg.mode == canon::GDS && r.chance(0.12)) {
+                // a ring drawn as one boundary: outer contour, back to its first vertex, inner contour (the
+                // first vertex occurs in the middle of the list, where a multi-record XY list may be cut)
+                Pt o = point(c);
+                o.x = canon::rgrid(o.x) * 10;
+                o.y = canon::rgrid(o.y) * 10;
+                dg_t w = ongrid(c, 30, 200), h = ongrid(c, 30, 200), t = ongrid(c, 2, 10);
+                std::vector<Pt> outer = {o, Pt{o.x + w, o.y}, Pt{o.x + w, o.y + h}, Pt{o.x, o.y + h}};
+                if (r.chance(0.3)) outer.erase(outer.begin() + 2);                          // triangle
+                else if (r.chance(0.3)) outer.insert(outer.begin() + 2, Pt{o.x + w + t, o.y + h / 20 * 10});  // pentagon
+                std::vector<Pt> inner = {Pt{o.x + t, o.y + t}, Pt{o.x + t, o.y + 2 * t}, Pt{o.x + 2 * t, o.y + 2 * t}, Pt{o.x + 2 * t, o.y + t}};
+                p.pts = outer;
+                p.pts.push_back(o);
+                for (auto& q : inner) p.pts.push_back(q);
+                p.pts.push_back(inner[0]);
+                p.rep = repetition(c, false);
+                p.props = props(c, true);
+                return p;
+            }
             if (c.cfg.simple_polys_only || r.chance(0.8)) {
                 double R = (double)r.range(25, 600);
                 p.pts = star_polygon(c, std::min(n, 60), point(c), R * 0.5, R);
@@ -712,6 +756,23 @@ inline model::MRef reference(Ctx& c, const std::string& target, bool by_name) {
                 m.rep.v1 = v1;
         }
     }
+    if (m.rep.type == model::REP_REGULAR && !huge && c.span < 1000000000 && r.chance(0.08)) {
+        // a lattice that is almost, but not quite, along the axes: a long pitch with an off-axis component of a
+        // few grid steps (a writer that decides "is this an AREF" by an angle must not lose that component)
+        dg_t big = ongrid(c, 20000, 1000000), small = ongrid(c, 1, 10) * (r.chance(0.5) ? 1 : -1);
+        dg_t other = ongrid(c, 10, 300);
+        if (r.chance(0.5)) {
+            m.rep.v1 = Pt{big, small};
+            m.rep.v2 = Pt{r.chance(0.5) ? 0 : -small / 10 * 10, other};
+        } else {
+            m.rep.v1 = Pt{other, r.chance(0.5) ? 0 : small};
+            m.rep.v2 = Pt{small, big};
+        }
+        if (r.chance(0.6)) {
+            m.rot_deg = 0;
+            m.xrefl = false;
+        }
+    }
     m.props = props(c, true);
     return m;
 }
@@ -732,7 +793,7 @@ inline model::MLib library(Rng& r, const Cfg& cfg) {
     int ncell = (int)r.range(1, cfg.max_cells);
     if (r.chance(0.02)) ncell = 0;  // an empty library is a library too
     // many small cells: reference numbers, name tables and cell arrays beyond 127 entries
-    bool many = r.chance(0.007);
+    bool many = r.chance(0.007) && !cfg.compact;
     if (many) ncell = (int)r.range(130, 200);
     std::set<std::string> names;
     for (int i = 0; i < ncell; i++) {
